@@ -8,7 +8,7 @@
    ([regs_wf]) and the CFI oracle only returns register values that fit (they went through
    C::Register::try_from in CfiStackWalker). *)
 From Coq Require Import Lia ZArith List.
-From RM Require Import C05.Model C05.Proofs C05.Driver C05.ProofsModules C05.ProofsCfi.
+From RM Require Import C05.Model C05.ModelTail C05.Proofs C05.ProofsTail C05.Driver C05.ProofsModules C05.ProofsCfi.
 From RM Require C06.Model.
 Import ListNotations.
 Open Scope Z_scope.
@@ -189,6 +189,99 @@ Theorem c05_cfi_text_contract :
 Proof. exact cfi_text_contract. Qed.
 Print Assumptions c05_cfi_text_contract.
 
+(* ---- round 5: the guard expressions as the Rust text has them now (Gen/UnwindTail.v, re-emitted statement by statement
+   and operator by operator on every run).  [<arch>_gcf_tail p callee_is_context callee_sp caller_ip caller_sp] is the end of
+   <arch>::get_caller_frame from `let mut frame = frame?;` to `Some(frame)`; [lib_walk_stop] is the stop guard of walk_stack;
+   [walk_stack_gen p a tail ..] is the walker made of Model.v's techniques and these generated pieces -- it is what the
+   correspondence run executes against the real code. *)
+
+(* by itself, for every profile, every callee trust and all values: a check sequence never traps on a 64-bit instruction
+   pointer; when it lets the caller frame through, ip >= 4096, instruction = ip - call adjustment and the caller's stack
+   pointer is above the callee's -- x86 / amd64: always *)
+Theorem c05_tail_sound_x86 :
+  forall p callee_is_context callee_sp caller_ip caller_sp, 0 <= caller_ip < 2 ^ 64 ->
+    (exists o, x86_gcf_tail p callee_is_context callee_sp caller_ip caller_sp = Ret o) /\
+    (forall i, x86_gcf_tail p callee_is_context callee_sp caller_ip caller_sp = Ret (Some i) ->
+       4096 <= caller_ip /\ i = caller_ip - 1 /\ callee_sp < caller_sp).
+Proof. exact (tail_strict _ _ _ tail_sound_x86). Qed.
+Print Assumptions c05_tail_sound_x86.
+Theorem c05_tail_sound_amd64 :
+  forall p callee_is_context callee_sp caller_ip caller_sp, 0 <= caller_ip < 2 ^ 64 ->
+    (exists o, amd64_gcf_tail p callee_is_context callee_sp caller_ip caller_sp = Ret o) /\
+    (forall i, amd64_gcf_tail p callee_is_context callee_sp caller_ip caller_sp = Ret (Some i) ->
+       4096 <= caller_ip /\ i = caller_ip - 1 /\ callee_sp < caller_sp).
+Proof. exact (tail_strict _ _ _ tail_sound_amd64). Qed.
+Print Assumptions c05_tail_sound_amd64.
+(* ARM / ARM64 (both context layouts) / MIPS: the stack pointer may stay equal only when the callee is the context frame *)
+Theorem c05_tail_sound_arm :
+  forall p callee_is_context callee_sp caller_ip caller_sp, 0 <= caller_ip < 2 ^ 64 ->
+    (exists o, arm_gcf_tail p callee_is_context callee_sp caller_ip caller_sp = Ret o) /\
+    (forall i, arm_gcf_tail p callee_is_context callee_sp caller_ip caller_sp = Ret (Some i) ->
+       4096 <= caller_ip /\ i = caller_ip - 2 /\
+       (callee_sp < caller_sp \/ (callee_is_context = true /\ callee_sp = caller_sp))).
+Proof. exact (tail_leaf _ _ _ tail_sound_arm). Qed.
+Print Assumptions c05_tail_sound_arm.
+Theorem c05_tail_sound_arm64 :
+  forall p callee_is_context callee_sp caller_ip caller_sp, 0 <= caller_ip < 2 ^ 64 ->
+    (exists o, arm64_gcf_tail p callee_is_context callee_sp caller_ip caller_sp = Ret o) /\
+    (forall i, arm64_gcf_tail p callee_is_context callee_sp caller_ip caller_sp = Ret (Some i) ->
+       4096 <= caller_ip /\ i = caller_ip - 4 /\
+       (callee_sp < caller_sp \/ (callee_is_context = true /\ callee_sp = caller_sp))).
+Proof. exact (tail_leaf _ _ _ tail_sound_arm64). Qed.
+Print Assumptions c05_tail_sound_arm64.
+Theorem c05_tail_sound_mips :
+  forall p callee_is_context callee_sp caller_ip caller_sp, 0 <= caller_ip < 2 ^ 64 ->
+    (exists o, mips_gcf_tail p callee_is_context callee_sp caller_ip caller_sp = Ret o) /\
+    (forall i, mips_gcf_tail p callee_is_context callee_sp caller_ip caller_sp = Ret (Some i) ->
+       4096 <= caller_ip /\ i = caller_ip - 8 /\
+       (callee_sp < caller_sp \/ (callee_is_context = true /\ callee_sp = caller_sp))).
+Proof. exact (tail_leaf _ _ _ tail_sound_mips). Qed.
+Print Assumptions c05_tail_sound_mips.
+
+(* the generated pieces are exactly the parametric ones of Model.v (no range hypotheses), so the walker the driver runs
+   is walk_stack current_code of Model.v -- the object of every theorem above and of C04's recovery theorems *)
+Theorem c05_tail_pinned :
+  (forall p c s ip sp, x86_gcf_tail p c s ip sp = gcf_tail x86 p c s ip sp) /\
+  (forall p c s ip sp, amd64_gcf_tail p c s ip sp = gcf_tail amd64 p c s ip sp) /\
+  (forall p c s ip sp, arm_gcf_tail p c s ip sp = gcf_tail arm p c s ip sp) /\
+  (forall p c s ip sp, arm64_gcf_tail p c s ip sp = gcf_tail arm64 p c s ip sp) /\
+  (forall p c s ip sp, mips_gcf_tail p c s ip sp = gcf_tail mips32 p c s ip sp) /\
+  (forall p c s ip sp, mips_gcf_tail p c s ip sp = gcf_tail mips64 p c s ip sp) /\
+  (forall callee_is_context sp_readable, lib_walk_stop callee_is_context sp_readable = negb callee_is_context && negb sp_readable) /\
+  generated_code = current_code.
+Proof.
+  exact (conj tail_pinned_x86 (conj tail_pinned_amd64 (conj tail_pinned_arm (conj tail_pinned_arm64
+        (conj tail_pinned_mips32 (conj tail_pinned_mips64 (conj stop_pinned generated_code_current))))))).
+Qed.
+Print Assumptions c05_tail_pinned.
+
+Theorem c05_generated_walk_is_model :
+  forall archid p os mem module_at max_module_addr cfi_walk instr_valid fuel r v,
+    walk_stack_gen p (arch_of archid) (tail_of archid) os mem module_at max_module_addr cfi_walk instr_valid fuel r v =
+    walk_stack current_code p (arch_of archid) os mem module_at max_module_addr cfi_walk instr_valid fuel r v.
+Proof. exact generated_walk_is_model. Qed.
+Print Assumptions c05_generated_walk_is_model.
+
+(* well-formedness + no panic + the frame bound, stated for the walker made of the generated pieces *)
+Theorem c05_generated_x86 : walker_facts_gen x86 x86_gcf_tail.
+Proof. exact (walker_facts_gen_of x86 x86_gcf_tail arch_ok_x86 tail_pinned_x86). Qed.
+Print Assumptions c05_generated_x86.
+Theorem c05_generated_amd64 : walker_facts_gen amd64 amd64_gcf_tail.
+Proof. exact (walker_facts_gen_of amd64 amd64_gcf_tail arch_ok_amd64 tail_pinned_amd64). Qed.
+Print Assumptions c05_generated_amd64.
+Theorem c05_generated_arm : walker_facts_gen arm arm_gcf_tail.
+Proof. exact (walker_facts_gen_of arm arm_gcf_tail arch_ok_arm tail_pinned_arm). Qed.
+Print Assumptions c05_generated_arm.
+Theorem c05_generated_arm64 : walker_facts_gen arm64 arm64_gcf_tail.   (* arm64_old.rs = arm64.rs, checked by the translator *)
+Proof. exact (walker_facts_gen_of arm64 arm64_gcf_tail arch_ok_arm64 tail_pinned_arm64). Qed.
+Print Assumptions c05_generated_arm64.
+Theorem c05_generated_mips32 : walker_facts_gen mips32 mips_gcf_tail.
+Proof. exact (walker_facts_gen_of mips32 mips_gcf_tail arch_ok_mips32 tail_pinned_mips32). Qed.
+Print Assumptions c05_generated_mips32.
+Theorem c05_generated_mips64 : walker_facts_gen mips64 mips_gcf_tail.
+Proof. exact (walker_facts_gen_of mips64 mips_gcf_tail arch_ok_mips64 tail_pinned_mips64). Qed.
+Print Assumptions c05_generated_mips64.
+
 (* ---- the refutations that led to the repairs in /repo (kept checkable: [code_before_fixes]) *)
 Definition w_cfi_never_reads (callee : frame) (_ : option frame) (_ : list Z) : option (regs * list Z) :=
   let sp := r_sp (f_regs callee) in
@@ -268,3 +361,22 @@ Proof.
     inversion H; subst. unfold regs_wf, in_slot; cbn. lia.
   - eexists. split; [vm_compute; reflexivity|]. reflexivity.
 Qed.
+
+(* the generated check sequences do let frames through and do stop: a grown sp passes, an equal sp passes only for the
+   context frame's caller on a leaf architecture, a nullish ip stops *)
+Example c05_nonvacuous_tail :
+  amd64_gcf_tail Debug false 1000 5000 1008 = Ret (Some 4999) /\
+  amd64_gcf_tail Debug true 1000 5000 1000 = Ret None /\
+  arm64_gcf_tail Debug true 1000 8192 1000 = Ret (Some 8188) /\
+  arm64_gcf_tail Release false 1000 8192 1000 = Ret None /\
+  mips_gcf_tail Debug false 0 4095 8 = Ret None /\
+  lib_walk_stop false false = true /\ lib_walk_stop true false = false /\ lib_walk_stop false true = false.
+Proof. repeat split; reflexivity. Qed.
+
+(* ... and the walker made of them walks the frame-pointer chain of c05_nonvacuous_walk *)
+Example c05_nonvacuous_generated_walk :
+  exists f0 f1 f2,
+    walk_stack_gen Debug amd64 amd64_gcf_tail OS_OTHER nv_mem (fun _ => None) 0 (fun _ _ _ => None) (fun _ => false) (fuel_for nv_mem) nv_regs VAll
+      = Ret [f0; f1; f2] /\
+    f_trust f1 = TFramePointer /\ f_resume f1 = 127546570047744 /\ f_instr f2 = 127546570048000 - 1 /\ r_sp (f_regs f2) = 2147483696.
+Proof. eexists; eexists; eexists. split; [vm_compute; reflexivity|]. cbn. repeat split; reflexivity. Qed.
